@@ -129,6 +129,15 @@ func mkReplyResult(id, result string) member {
 func mkReplyError(id string, code int, msg string) member {
 	return member{id: id, ecode: &code, emsg: msg, wire: obj(v2, `"id":`+id, fmt.Sprintf(`"error":{"code":%d,"message":%s}`, code, jstr(msg)))}
 }
+
+// loose replies: a reply that fails the deferred validation (no version marker, or an extra member). It still
+// completes the callback it answers; late or unsolicited it is discarded like any other stray reply.
+func mkReplyNoVersion(id, result string) member {
+	return member{id: id, result: result, errcode: -32600, errmsg: "invalid version marker", wire: obj(`"id":`+id, `"result":`+result)}
+}
+func mkReplyExtra(id, result string) member {
+	return member{id: id, result: result, errcode: -32600, errmsg: "extra fields in request", wire: obj(v2, `"id":`+id, `"result":`+result, `"zzz":1`)}
+}
 func mkMixed(id, method, tok string) member {
 	m := mkCall(id, method, tok)
 	m.wire = m.wire[:len(m.wire)-1] + `,"result":true}`
@@ -209,15 +218,16 @@ type srvRun struct {
 	baseCancel context.CancelCauseFunc
 	baseEnded  bool
 
-	mu      sync.Mutex
-	gates   map[string]chan gateMsg // by params text
-	started []string                // params of running handlers (entered, not yet gated)
-	notes   map[string]bool         // params of running NOTIFICATION handlers (their context never ends)
-	cbctx   map[int]*mctx
-	cbOpen  []int // callbacks issued and not yet returned
-	nops    int
-	waiting int
-	faults  []string
+	mu       sync.Mutex
+	gates    map[string]chan gateMsg // by params text
+	started  []string                // params of running handlers (entered, not yet gated)
+	notes    map[string]bool         // params of running NOTIFICATION handlers (their context never ends)
+	cbctx    map[int]*mctx
+	cbcancel map[int]func() // callbacks whose context is a real one carrying a cause
+	cbOpen   []int          // callbacks issued and not yet returned
+	nops     int
+	waiting  int
+	faults   []string
 
 	// racing mode (policy "race"): no scheduler, environment actions are not separated by
 	// quiescence, the hook points only perturb the Go scheduler; quiet turns waiting back on
@@ -325,7 +335,7 @@ func (a assigner) Assign(ctx context.Context, method string) jrpc2.Handler {
 }
 
 func newSrvRun(cfg srvConfig, out *bufio.Writer) *srvRun {
-	r := &srvRun{cfg: cfg, log: &logger{out: out}, sc: &sched{on: true}, gates: map[string]chan gateMsg{}, notes: map[string]bool{}, cbctx: map[int]*mctx{}}
+	r := &srvRun{cfg: cfg, log: &logger{out: out}, sc: &sched{on: true}, gates: map[string]chan gateMsg{}, notes: map[string]bool{}, cbctx: map[int]*mctx{}, cbcancel: map[int]func(){}}
 	opts := &jrpc2.ServerOptions{Concurrency: cfg.K, AllowPush: cfg.push, DisableBuiltin: !cfg.builtin}
 	if cfg.rpclog {
 		opts.RPCLog = rpcLogger{r}
@@ -526,6 +536,13 @@ func (r *srvRun) callPush(wantID bool, method, params string) int {
 	background := n%3 == 0
 	if background {
 		ctx = context.Background()
+	} else if n%3 == 1 {
+		// a real context that ends with a cause of the caller's own: Callback still returns ctx.Err()
+		cctx, cancel := context.WithCancelCause(context.Background())
+		ctx = cctx
+		r.mu.Lock()
+		r.cbcancel[n] = func() { cancel(errBaseCause) }
+		r.mu.Unlock()
 	}
 	r.mu.Lock()
 	r.cbctx[n] = mc
@@ -605,7 +622,14 @@ func (r *srvRun) handlerPush(p string, wantID bool, method, params string) {
 func (r *srvRun) cbCtxEnd(n int, deadline bool) {
 	r.mu.Lock()
 	ctx := r.cbctx[n]
+	cancel := r.cbcancel[n]
 	r.mu.Unlock()
+	if cancel != nil {
+		r.log.item("env\tcbctx\t%d\tcancel", n)
+		cancel()
+		r.settleEnv()
+		return
+	}
 	if deadline {
 		r.log.item("env\tcbctx\t%d\tdeadline", n)
 		ctx.end(context.DeadlineExceeded)
